@@ -38,6 +38,16 @@ func TestVerifGlobals(t *testing.T) {
 		}
 		n++
 	}
+	// the index table of the generated Form.String: non-decreasing offsets into _Form_name (invariant as stated in the contracts: <= 29)
+	for i := 0; i+1 < len(_Form_index); i++ {
+		if _Form_index[i] > _Form_index[i+1] || int(_Form_index[i+1]) > 29 || int(_Form_index[i+1]) > len(_Form_name) {
+			t.Fatalf("_Form_index[%d]", i)
+		}
+		n++
+	}
+	if len(_Form_index) != 5 {
+		t.Fatalf("_Form_index has %d entries; the invariant is stated for 5", len(_Form_index))
+	}
 	bigs := map[string][2]interface{}{"bigOne": {bigOne, int64(1)}, "bigTwo": {bigTwo, int64(2)}, "bigFive": {bigFive, int64(5)}, "bigTen": {bigTen, int64(10)}}
 	for name, p := range bigs {
 		if p[0].(*BigInt).MathBigInt().Cmp(big.NewInt(p[1].(int64))) != 0 {
